@@ -287,10 +287,10 @@ def run_C06(tier, seed):
 
 def run_C08(tier, seed):
     rep = Report("C08", tier, seed, "exploration",
-                 "case = (insertion sequence, worker count, delay seed). Sequences (3 quick / 20 thorough) of 10..30 blocks: 4095 tiny items "
+                 "case = (insertion sequence, worker count, delay seed). Sequences (5 quick / 20 thorough) of 10..30 blocks: 4095 tiny items "
                  "(closes a cluster through the blob limit, compressed or raw), runs of 2..6 contents of 2.2 MiB (close compressed clusters "
                  "through the size limit and fill the queue), runs of raw contents; 25..80 clusters each. Worker counts {1,2,4,15} quick / "
-                 "1..15 thorough through the CPU affinity seen by available_parallelism; 3 / 8 delay seeds rotating over the profiles "
+                 "1..15 thorough through the CPU affinity seen by available_parallelism; 4 / 8 delay seeds rotating over the profiles "
                  "uniform heavy-tailed 0-20 ms per (callback, cluster), one slow worker, slow writer, slow workers with a fast main thread. "
                  "Monitors: offline checker over the Progress event log (each cluster opened, handled and written exactly once in that order, "
                  "kinds consistent, counts = cluster table); read-back of every address; pack check(); independent decoder (cluster table vs "
@@ -300,11 +300,11 @@ def run_C08(tier, seed):
                  ["schedules are sampled by delays, not enumerated"])
     b = B.build("release")
     total = plan(b, "C08", tier)
-    cases, errors = run_batch(b, "C08", tier, seed, "release", total, timeout=240, extra_args=["--case-timeout", "120"])
+    cases, errors = run_batch(b, "C08", tier, seed, "release", total, timeout=200, extra_args=["--case-timeout", "90"])
 
     def confirm(c):
         d = c.desc or {}
-        return hang.confirm(b, "C08", c, ("C08", d.get("seq"), d.get("workers"), d.get("delay_seed")), budget=150, extra_sig={"step": "create"})
+        return hang.confirm(b, "C08", c, ("C08", d.get("profile")), budget=90, extra_sig={"step": "create"})
 
     rep.add_cases(cases, hang_confirm=confirm)
     rep.errors += errors
